@@ -16,6 +16,7 @@ package maven
 
 import (
 	"encoding/xml"
+	"slices"
 	"strings"
 )
 
@@ -64,7 +65,10 @@ func (p *Properties) UnmarshalXML(d *xml.Decoder, start xml.StartElement) error 
 }
 
 func (p *Properties) merge(parent Properties) {
-	p.Properties = append(parent.Properties, p.Properties...)
+	// The parent's properties come first. Build a new slice: appending to
+	// the parent's own would write into its spare capacity, which every
+	// other project merged with the same parent shares.
+	p.Properties = slices.Concat(parent.Properties, p.Properties)
 }
 
 // propertyMap returns the property map with project properties and
